@@ -4374,7 +4374,7 @@ Case_BaseLdurStur:
         if (size_op.size() == 3u) {
           // The second immediate should not be present, however, we accept
           // an immediate value of zero as some user code may still pass it.
-          if (o2.is_imm() && o0.as<Imm>().value() != 0)
+          if (o2.is_imm() && o2.as<Imm>().value() != 0)
             goto InvalidImmediate;
 
           if (Utils::is_byte_mask_imm(imm64)) {
